@@ -1,7 +1,6 @@
 SPECIFICATION Spec
 CONSTANTS
   MaxSigs = 1
-  Spaced = FALSE
   Tools = {"none"}
 INVARIANT NeverAuthorized
 VIEW View
